@@ -15,7 +15,7 @@ RULE = ("random dataflow programs over the instrumented TS<Int> vocabulary (sour
 ASSUMPTIONS = ["vp/model.py is a faithful reading of the documented semantics for the harness vocabulary",
                "g++-12 -O1 build of the working tree with harness-side shims for <chrono> I/O, simdjson and named time zones",
                "instrumented harness nodes log truthfully from inside user code"]
-FLOORS = {"runs_compared": {"quick": 2000, "thorough": 20000}, "gate_closed": {"quick": 20, "thorough": 200},
+FLOORS = {"runtime_passive_quiet_cycles": {"quick": 100, "thorough": 1500}, "runtime_passive_woken_by_the_other_list": {"quick": 100, "thorough": 1500}, "runs_compared": {"quick": 2000, "thorough": 20000}, "gate_closed": {"quick": 20, "thorough": 200},
           "passive_only_ticks": {"quick": 10, "thorough": 100}, "partially_wired_all_valid_consumers": {"quick": 40, "thorough": 600}}
 BATCH = 25
 
@@ -48,7 +48,79 @@ def generate(rng, tier, seed):
         c = gen_case(rng, f"c03_{seed}_pg{k}", n_nodes=rng.choice([3, 5, 8]), max_depth=1)
         c.meta["pair_gates"] = add_pair_gates(rng, c)
         extra.append(c)
-    return cases + extra
+    return cases + extra + [gen_gate4(rng, f"c03_{seed}_g4{k}") for k in range(n // 5)]
+
+
+def gen_gate4(rng, name):
+    """A node with two structural inputs, each assembled from two independent ports, that switches one of them passive AT RUN TIME
+    (make_passive() at its n-th evaluation) and sometimes active again: ticks of the passive list alone do not run it, ticks of
+    the other list - whichever argument position it has - still do."""
+    from .prog import Case, S
+    end = rng.choice([30, 45, 60])
+    c = Case(name, 0, end)
+    v = 0
+    for u in (1, 2, 3, 4):
+        sc = []
+        for t in sorted(rng.sample(range(0, end), rng.choice([3, 6, 10, 16]))):
+            v += 1
+            sc.append((t, v))
+        c.scripts[u] = sc
+    drop = rng.choice([0, 1, 1, 2])
+    at = rng.choice([1, 2, 3, 5])
+    back = rng.choice([0, 0, at + rng.choice([2, 4, 7])])
+    c.graphs["main"] = [S("a", "src", uid=1, mode=1), S("b", "src", uid=2, mode=1), S("c", "src", uid=3, mode=1), S("d", "src", uid=4, mode=1),
+                        S("g", "gate4", "a", "b", "c", "d", uid=10, drop=drop, at=at, back=back), S("", "rec", "g", uid=11)]
+    c.meta.update(kind="gate4", drop=drop, at=at, back=back)
+    return c
+
+
+def check_gate4(case, tr):
+    res = Result(signature=case.text().split("\n", 1)[1])
+    if tr.build_error or not tr.runs or tr.runs[0].error:
+        res.violations.append(Violation(f"build/run failed: {tr.build_error or (tr.runs[0].error if tr.runs else 'no run')}"))
+        return res
+    run = tr.runs[0]
+    ticks = {u: dict((t, v) for t, v in case.scripts[u] if t < case.end) for u in (1, 2, 3, 4)}
+    got = {ue.t: ue.out for ue in run.uevals() if ue.uid == 10}
+    drop, at, back = case.meta["drop"], case.meta["at"], case.meta["back"]
+    passive, n = None, 0
+    held = {u: None for u in (1, 2, 3, 4)}
+    V = []
+    runs = quiet = woken_by_other = 0
+    for t in range(case.start, case.end):
+        for u in (1, 2, 3, 4):
+            if t in ticks[u]:
+                held[u] = ticks[u][t]
+        x_t = any(t in ticks[u] for u in (1, 2))
+        y_t = any(t in ticks[u] for u in (3, 4))
+        expect = (x_t and passive != 0) or (y_t and passive != 1)
+        if not expect and (x_t or y_t):
+            quiet += 1
+        if expect and passive is not None and ((passive == 1 and x_t and not y_t) or (passive == 0 and y_t and not x_t)):
+            woken_by_other += 1
+        if expect != (t in got):
+            V.append(f"t={t}: the node {'did not run' if expect else 'ran'}; list xs {'ticked' if x_t else 'did not tick'}, ys "
+                     f"{'ticked' if y_t else 'did not tick'}, passive at run time: {['xs', 'ys'][passive] if passive is not None else 'none'} "
+                     f"(make_passive at evaluation {at}, make_active at evaluation {back or 'never'}; {n} evaluations so far)")
+            if len(V) >= 3:
+                break
+            if t not in got:
+                continue
+        if t in got:
+            runs += 1
+            n += 1
+            exp = sum(x for x in held.values() if x is not None)
+            if got[t] != exp:
+                V.append(f"t={t}: the node wrote {got[t]}, the latest values of its four leaves sum to {exp}")
+            if n == at and drop in (0, 1):
+                passive = drop
+            if back and n == back:
+                passive = None
+    for m in V[:4]:
+        res.violations.append(Violation(m))
+    res.counters = {"runtime_passive_runs_compared": runs, "runtime_passive_quiet_cycles": quiet, "runtime_passive_woken_by_the_other_list": woken_by_other}
+    res.nontrivial = quiet >= 1 and woken_by_other >= 1
+    return res
 
 
 def compare_runs(case, run, mr, label="model"):
@@ -123,6 +195,8 @@ def check(case, tr):
     if tr.build_error:
         res.violations.append(Violation(f"valid program rejected at build: {tr.build_error}"))
         return res
+    if case.meta.get("kind") == "gate4":
+        return check_gate4(case, tr)
     flat = M.flatten(case)
     mr = M.simulate(flat)
     run = tr.runs[0]
